@@ -114,7 +114,7 @@ def run_powell(rng, obs):
     from mystic.solvers import fmin_powell
     from mystic._scipy060optimize import brent
     dim = rng.randint(1, 6)
-    spec = K.gen_cost(rng, dim, ['sphere', 'illquad', 'rosen', 'abs', 'maxnorm'])
+    spec = K.gen_cost(rng, dim, ['sphere', 'illquad', 'rosen', 'abs', 'maxnorm', 'step', 'plateau'])     # (plateaus: sweeps without progress, t == 0 in the extrapolation test)
     raw = K.make_cost(spec)
     x0 = [round(rng.uniform(-3, 3), 2) for _ in range(dim)]
     xtol = rng.choice([1e-4, 1e-2]); ftol = rng.choice([1e-4, 1e-2, 1e-8])
